@@ -306,6 +306,15 @@ def _scalar_dim(ctx, pt, Nn):
 def _helpers(ctx):
     m = ctx.model
     ex = m.func("expr_as_np_array.expr_as_np_array")
+    # the unpacked entries stay sub-expressions of the argument: a numeric snapshot (`.value`) severs the link to the variable
+    snap = [n for n in walk_no_nested(ex.node) if isinstance(n, ast.Attribute) and n.attr == "value" and isinstance(n.ctx, ast.Load)
+            and any(isinstance(x, ast.Name) and x.id == "cvx_expr" for x in ast.walk(n.value))]
+    snap_ret = [r for r in walk_no_nested(ex.node) if isinstance(r, ast.Return) and r.value is not None and any(any(y is x for y in ast.walk(r.value)) for x in snap)]
+    ctx.ob("R-THREAD", ex, "every returned entry is a sub-expression of the argument (no numeric snapshot of `.value`)", not snap,
+           "entries are cvx_expr[i, j] / the expression itself" if not snap else
+           f"`{unparse((snap_ret or snap)[0])[:60]}` (line {(snap_ret or snap)[0].lineno}) reads the CURRENT numeric value of the expression: for a Variable that holds a value (warm start, an "
+           "earlier solve) the caller gets constants, so partial_trace(variable) no longer contains the variable -- constraints built from it are constant and re-solving leaves it frozen",
+           (snap_ret or snap)[0] if snap else None)
     # 2-D unpacking is entry (i, j) -> rows[i][j]
     comp_ok = None
     for n in ast.walk(ex.node):
